@@ -1,5 +1,5 @@
 """Runs the protocol's operations on the real DNPLab code, in-process."""
-import warnings, operator, copy
+import warnings, operator, copy, contextlib, io
 from fractions import Fraction
 from common import np, dnp, frac, gstr, canon_obj, exc_class, parse_g, consistent
 
@@ -85,7 +85,8 @@ class ImplStore:
         with warnings.catch_warnings(record=True) as w:
             warnings.simplefilter("always")
             try:
-                ret = self._apply(op)
+                with contextlib.redirect_stdout(io.StringIO()):
+                    ret = self._apply(op)
             except Exception as e:  # noqa: BLE001
                 outcome = "raise:" + exc_class(e)
                 self.last_exc = e
